@@ -275,6 +275,19 @@ def part_b(ctx, res):
         res.violations.append(core.Violation(v["key"], v["what"], v))
 
 
+# what the property text says where the Lean Spec mirrors the code (so Spec-vs-implementation cannot see it)
+DIRECT = [
+    {"key": "unsubscribed:late-reply-detaches-handler-subscribed-after-the-unsubscribe",
+     "what": "unsubscribe() of the last handler of subscription 50 (UNSUBSCRIBE outstanding), then subscribe() of a new "
+             "handler that the router answers with the same subscription id, then the UNSUBSCRIBED of the earlier request: "
+             "`del self._subscriptions[id]` drops the new handler too, so the next EVENT is not delivered to a handler that "
+             "is attached and is answered with ProtocolError",
+     "script": ["open", "pump", "m.welcome,7", "sub,1,4,n,ok", "m.subscribed,1,50", "unsub,0,ok", "sub,2,4,n,ok",
+                "m.subscribed,3,50", "m.unsubscribed,2", "pump", "m.event,50,1,a1,n", "pump"],
+     "event": 10, "expect": ["inv:2,2,"], "forbid": ["raise:"], "all_done": False},
+]
+
+
 def run(ctx):
     res = core.Result()
     res.rule = ("script = event tokens for one session object: 1-4 handlers per subscription id on one or two ids (same or "
@@ -286,6 +299,10 @@ def run(ctx):
                 "line with the Lean model and (projected) the Lean Spec; non-trivial = distinct script containing an EVENT")
     if ctx.replay_path:
         scripts, fws = sc.replay_scripts(ctx)
+        d = sc.replay_direct(ctx)
+        if d:
+            sc.check_direct(ctx, res, d, frameworks=fws)
+            return res
         sc.check_scripts(ctx, res, scripts, owns, frameworks=fws, shrink=False)
         return res
     items = [("corpus", s) for s in CORPUS] + [("corpus:" + n, s) for n, s in sc.corpus_scripts(PROP)] + gen(ctx)
@@ -309,5 +326,7 @@ def run(ctx):
     ctx.log(f"{len(scripts)} scripts, {sum(map(len, scripts))} events")
     st = sc.check_scripts(ctx, res, scripts, owns)
     res.notes.append("spec divergences by key: " + ", ".join(st["keys"]) if st["keys"] else "no spec divergence")
+    hit = sc.check_direct(ctx, res, DIRECT)
+    res.notes.append("direct expectations violated: " + (", ".join(hit) or "none"))
     part_b(ctx, res)
     return res
